@@ -189,6 +189,63 @@ def h_tmpstore(d1: bytes, d2: bytes, d3: bytes, lens: str) -> None:
     reached()
 
 
+def h_pclass(extra_sp: bool, touch: bool, k: int, second: bool, storage: str) -> None:
+    """Objects that cannot be ghosts - persistent classes (ZODB.persistentclass), which re-read their state at the
+    moment they are invalidated - next to an ordinary object: change, S1, change, [S2], [change], rollback to a
+    solver-chosen savepoint, [second rollback to the same one], commit: both show exactly the savepoint's state, and
+    that is what the commit stores."""
+    nsp = 2 if extra_sp else 1
+    target = choose(k, nsp)
+    with untraced():
+        import transaction
+        import ZODB
+        from ZODB.persistentclass import PersistentMetaClass
+        from zverif import pobj
+        env = T.Env()
+        s = env.filestorage() if storage == 'file' else env.mappingstorage()
+        db = ZODB.DB(s)
+        tm = transaction.TransactionManager()
+        c = db.open(tm)
+        Cls = PersistentMetaClass('Cls', (object,), {'x': 0})
+        c.root()['cls'] = Cls
+        c.root()['obj'] = pobj.PObj(v=0)
+        tm.commit()
+        ob = c.root()['obj']
+        val = [0]
+
+        def change():
+            val[0] += 1
+            Cls.x = val[0]
+            ob.v = val[0]
+        sps, at = [], []
+        change()
+        sps.append(tm.savepoint())
+        at.append(val[0])
+        change()
+        if extra_sp:
+            sps.append(tm.savepoint())
+            at.append(val[0])
+            if touch:
+                change()
+        want = at[target]
+        sps[target].rollback()
+        check(ob.v == want, 'ordinary object does not show the savepoint state after rollback', ob.v, want)
+        check(Cls.x == want, 'persistent class does not show the savepoint state after rollback', Cls.x, want)
+        if second:
+            change()
+            sps[target].rollback()
+            check(ob.v == want and Cls.x == want, 'second rollback to the same savepoint does not restore its state', ob.v, Cls.x, want)
+        tm.commit()
+        tm2 = transaction.TransactionManager()
+        c2 = db.open(tm2)
+        check(c2.root()['obj'].v == want, 'commit after a rollback stored another state of the ordinary object', c2.root()['obj'].v, want)
+        check(c2.root()['cls'].x == want, 'commit after a rollback stored another state of the persistent class', c2.root()['cls'].x, want)
+        c2.close()
+        c.close()
+        db.close()
+    reached()
+
+
 from zverif.harness.c13 import h_directed_sp as _blob_sp, h_fault as _blob_fault  # noqa: E402
 
 HARNESSES = [
@@ -212,6 +269,15 @@ HARNESSES = [
             code=['Connection._rollback_savepoint', 'TmpStore.reset', 'Connection._invalidate_creating'],
             quick=dict(timeout=150, shards=shards(storage=['file'])),
             thorough=dict(timeout=600, shards=shards(storage=['file', 'mapping', 'demo']))),
+    Harness('pclass', h_pclass,
+            decides='persistent classes (objects that cannot be ghosts and re-read their state when invalidated) and an ordinary object: '
+                    'after a rollback to any savepoint - also after a further savepoint and later changes, also repeated - both show the '
+                    'savepoint state and the commit stores it',
+            symbolic='3 booleans (further savepoint / change after it / second rollback), rollback target',
+            bounds='1 persistent class + 1 object, <= 2 savepoints', oracle='value recorded at the savepoint',
+            code=['Connection._rollback_savepoint', 'TmpStore.reset', 'persistentclass.PersistentMetaClass._p_invalidate'],
+            quick=dict(timeout=60, shards=shards(storage=['file', 'mapping'])),
+            thorough=dict(timeout=120, shards=shards(storage=['file', 'mapping']))),
     Harness('tmpstore', h_tmpstore,
             decides='TmpStore.store/load/reset with arbitrary payload bytes: reset restores exactly the savepoint contents, repeatedly',
             symbolic='3 payloads (symbolic bytes; lengths fixed per shard)', bounds='2 oids, 2 resets', oracle='stored bytes',
